@@ -38,6 +38,7 @@ META = {
 }
 
 SYN_RB = "x * %logic=common.default_instead_undo\ny *\nb *\n    x * %logic=common.default_instead_undo\n"
+SYN_MUT = "z * %logic=c20synth.mutating\ny *\nb *\n    z * %logic=c20synth.mutating\n"
 ACL1 = "interface *\n    description\n    mtu\nsysname\n"
 
 JOBS = [
@@ -79,6 +80,11 @@ JOBS = [
                           "route-map RM_TOR permit 10": {"match ip address prefix-list PL_LO": {}},
                           "ip prefix-list PL_LO seq 10 permit 10.0.0.0/8 le 32": {}}, None, False,
      (["route-map RM_TOR permit 10"], ["ip prefix-list PL_LO seq 10 permit 10.0.0.0/8 le 32"])),
+    # a rulebook directory of its own (custom provider root_dir) for a model the shipped provider also serves
+    ("cisco", ("dir", SYN_RB), {"x 1": {}, "y 1": {}, "hostname r1": {}}, {"y 2": {}, "hostname r2": {}}, None, False),
+    # logic that writes to its rule argument, top level and nested, in place (comments shown)
+    ("cisco", SYN_MUT, {"z 1": {}, "z 2 v": {}, "y 1": {}}, {"z 2 w": {}, "y 1": {}}, None, True),
+    ("cisco", SYN_MUT, {"y 1": {}, "b 1": {"z 1": {}}}, {"y 2": {}, "b 1": {}}, None, True),
     # the only shipped rulebook with top-level %context rows
     ("aruba", None, {"hostname a": {}}, {"hostname b": {}, "wlan ssid-profile x": {"essid x": {}}}, None, False),
 ]
@@ -126,7 +132,24 @@ def run_job(j):
     else:
         hw = make_hw(vendor)
     dev = StubDevice(hw)
-    rb = make_rb(rbtext, hw.vendor) if rbtext else rulebook.get_rulebook(hw)
+    from vt.harness import c20synth
+    c20synth.install()
+    tmpdir = None
+    if isinstance(rbtext, tuple):
+        # a provider of its own with a rulebook directory of its own
+        import tempfile
+        from annet.rulebook import DefaultRulebookProvider
+        tmpdir = tempfile.mkdtemp(prefix="vt_c20rb_", dir="/var/tmp")
+        os.makedirs(os.path.join(tmpdir, "texts"))
+        with open(os.path.join(tmpdir, "texts", hw.vendor + ".rul"), "w") as f:
+            f.write(rbtext[1])
+        try:
+            rb = DefaultRulebookProvider(root_dir=tmpdir).get_rulebook(hw)
+        finally:
+            import shutil
+            shutil.rmtree(tmpdir, ignore_errors=True)
+    else:
+        rb = make_rb(rbtext, hw.vendor) if rbtext else rulebook.get_rulebook(hw)
     old_t, new_t = tree(old), tree(new)
     snap_old, snap_new, snap_rb = tree_to_json(old_t), tree_to_json(new_t), dump_rb(rb)
     acl_rules = compile_acl_text(acl, hw.vendor) if acl else None
